@@ -191,6 +191,7 @@ func refsResolve(root any) bool {
 }
 
 type compiled struct {
+	tree  any    // the raw document, decoded
 	doc   string // canonical, $ref nodes inlined
 	raw   []byte
 	wf    bool
@@ -368,6 +369,7 @@ func convertReal(real core.ZodSchema, o Opt) (c compiled) {
 			c.err = "decode-error"
 			return
 		}
+		c.tree = tree
 		var b strings.Builder
 		canon(inlineRefs(tree), &b)
 		c.doc = b.String()
@@ -595,6 +597,23 @@ func (r *runner) convert(lv *live, o Opt) {
 	}
 	lv.convs = append(lv.convs, tok)
 	c := convertReal(lv.real, o)
+	// the reference bookkeeping of this very call: the model's convertTop on the instance graph must name the same
+	// $defs entries and $ref targets (an error must be an error)
+	if !lv.plain && !hasRecv(lv.s) {
+		if gt := r.graphText(lv.s, o.Meta == "private"); gt != "" {
+			obs := "error"
+			if c.panic != "" {
+				obs = "panic"
+			} else if c.err == "" {
+				obs = refsObservation(c.tree)
+			}
+			r.out.Count("refs:" + strings.SplitN(obs, "=", 2)[0])
+			if strings.Contains(obs, "refs=") && !strings.HasSuffix(obs, "refs=") {
+				r.out.Count("refs:document-with-references")
+			}
+			r.out.Emit("c07 refs "+tok+" "+gt+note, obs)
+		}
+	}
 	switch {
 	case c.panic != "":
 		r.out.Emit(docOp+note, "panic")
